@@ -7,13 +7,7 @@ TRUSTED_BASE = [
     "integers modelled as Nat (u64 wrap-around out of scope)",
 ]
 
-CONFIG = {
-    "C08": {
-        "title": "Changeset chunks tile the sequence range exactly, whatever the size limit",
-        "technique": "Lean 4 theorems (induction over the change list / fuel) about an executable model of ChunkedChanges::next and chunk_range + differential correspondence of model vs real iterator on generated and exhaustively enumerated small inputs",
-        "level_text": "Proof (full strength for the modelled functions): chunks_contiguous, tiles_cover_once, chunks_partition_changes, chunks_inside, nonfinal_chunk_nonempty hold for every strictly increasing change list inside [start,last], every start<=last and every sequence of size limits; chunkRange_union for every range and chunk size >= 1. The model is tied to change.rs / peer/mod.rs by running both on the same inputs (50k random + exhaustive subsets of seqs over 0..=4 (quick) / 0..=7 (thorough) x limit patterns) and diffing outputs; an independent tiling oracle is evaluated on the real output.",
-        "level_note": "Trusted: Lean kernel; statement fidelity; the harness (generator/printer/driver parser). Modelled not verified: Change::estimated_byte_size is read from the real code per change (its value is an input of the model); the rusqlite row iterator is replaced by a Vec iterator; iterator errors (Some(Err)) are not modelled; chunk_range with step 0 (panics in the real code) is excluded.",
-        "design_ref": "DESIGN.md §4 C08",
-        "assumptions": ["change sizes are whatever estimated_byte_size returns (any Nat in the theorems)", "start <= last, seqs strictly increasing inside [start,last] (the property's quantifier)"],
-    },
-}
+import glob, json, os
+CONFIG = {}
+for _p in sorted(glob.glob(os.path.join(os.path.dirname(os.path.abspath(__file__)), "propcfg", "C*.json"))):
+    CONFIG[os.path.basename(_p)[:-5]] = json.load(open(_p))
